@@ -270,6 +270,45 @@ def controller_seeding(repo: Repo):
                     and not any(isinstance(x, ast.UnaryOp) and isinstance(x.op, ast.Not) for x in ast.walk(body)) \
                     and not any(k.arg == "reverse" for k in it.keywords):
                 sorted_by_dep = True
+        # for k, c in plain + dependent:   with the two lists filled by one pass over self.controllers.items() that sends each
+        # (name, controller) pair to one of them according to an isinstance(…, DependentRange) test: a stable partition
+        partition = None
+        rawit = lp.iter
+        if isinstance(rawit, ast.BinOp) and isinstance(rawit.op, ast.Add) and isinstance(rawit.left, ast.Name) and isinstance(rawit.right, ast.Name) \
+                and isinstance(lp.target, ast.Tuple) and len(lp.target.elts) == 2:
+            first, second = rawit.left.id, rawit.right.id
+            for fill in [n for n in ast.walk(init) if isinstance(n, ast.For) and n is not lp and norm(n.iter) == "self.controllers.items()"
+                         and isinstance(n.target, ast.Tuple) and len(n.target.elts) == 2]:
+                fk, fc = norm(fill.target.elts[0]), norm(fill.target.elts[1])
+                item = f"({fk}, {fc})"
+                bdefs = packed.once_defs(fill.body)
+                where_dep = where_plain = None
+                for c_ in ast.walk(fill):
+                    if isinstance(c_, ast.Call) and isinstance(c_.func, ast.Attribute) and c_.func.attr == "append" and len(c_.args) == 1 and norm(c_.args[0]) == item:
+                        recv = c_.func.value
+                        if isinstance(recv, ast.IfExp) and isinstance(recv.body, ast.Name) and isinstance(recv.orelse, ast.Name):
+                            pol = _dep_polarity(packed.resolve_names(recv.test, bdefs))
+                            if pol is not None:
+                                where_dep, where_plain = (recv.body.id, recv.orelse.id) if pol > 0 else (recv.orelse.id, recv.body.id)
+                for if_ in [n for n in ast.walk(fill) if isinstance(n, ast.If) and len(n.body) == 1 and len(n.orelse) == 1]:
+                    a_, b_ = if_.body[0], if_.orelse[0]
+                    if all(isinstance(x, ast.Expr) and isinstance(x.value, ast.Call) and isinstance(x.value.func, ast.Attribute) and x.value.func.attr == "append"
+                           and isinstance(x.value.func.value, ast.Name) and len(x.value.args) == 1 and norm(x.value.args[0]) == item for x in (a_, b_)):
+                        pol = _dep_polarity(packed.resolve_names(if_.test, bdefs))
+                        if pol is not None:
+                            ta, tb = a_.value.func.value.id, b_.value.func.value.id
+                            where_dep, where_plain = (ta, tb) if pol > 0 else (tb, ta)
+                if where_dep is not None and {where_dep, where_plain} == {first, second}:
+                    partition = "plain-first" if (first, second) == (where_plain, where_dep) else "dependent-first"
+        if partition is not None:
+            call = calls[0]
+            kv, cv = norm(lp.target.elts[0]), norm(lp.target.elts[1])
+            val = norm(call.args[1]).replace(" ", "") if len(call.args) == 2 else ""
+            recv_ok = norm(call.func.value) == cv and norm(call.args[0]) == "self" if call.args else False
+            value_ok = recv_ok and val == f"{kwname}.get({kv},{cv}.default)"
+            flt = "all-sorted" if partition == "plain-first" else "all"
+            out.append((flt, value_ok, f"for {kv}, {cv} in {norm(lp.iter)[:50]} (partitioned, {partition}): {cv}.set_initial(self, {val})"))
+            continue
         if norm(src) not in ("self.controllers.items()",) or not (isinstance(lp.target, ast.Tuple) and len(lp.target.elts) == 2):
             out.append(("?", None, norm(lp.iter)[:80]))
             continue
